@@ -1,2 +1,8 @@
 import Rtsp.Props.C03
+#print axioms Rtsp.Codec.SimpleAudio.c03_roundtrip
+#print axioms Rtsp.Codec.SimpleAudio.c03_roundtrip_many
+#print axioms Rtsp.Codec.Lpcm.c03_roundtrip_grouping
+#print axioms Rtsp.Codec.Lpcm.c03_fits_single
+#print axioms Rtsp.Codec.Lpcm.c03_timestamps
+#print axioms Rtsp.Codec.Lpcm.c03_roundtrip_many
 #print axioms Rtsp.Codec.Fragmented.c03_roundtrip
